@@ -1498,9 +1498,28 @@ def execute(triple, prop):
         ctx.event(op="build", kind=st.kind, f=sha_array(st.f), amps=[sha_array(a) for a in st.amps])
         for i, op in enumerate(triple["ops"]):
             gc_point()
-            info = apply_op(ctx, st, op, prop)
+            lockstep = st.shadow is not None and st.shadow.objs and op["op"] not in ("write_read", "plot")
+            try:
+                info = apply_op(ctx, st, op, prop)
+            except (Violation, HarnessError):
+                raise
+            except Exception as e:                      # noqa
+                if not (prop == "C12" and lockstep):
+                    raise
+                # the operation raised on the READ-BACK objects: does it on the objects that were written?
+                try:
+                    apply_op(Ctx(prop), st.shadow, op, None)
+                    other = None
+                except Exception as e2:                 # noqa
+                    other = e2
+                ctx.check(other is not None and type(other) is type(e), "history_diverges_after_readback",
+                          f"{op['op']} raised {type(e).__name__}: {e} on the read-back object but "
+                          + ("succeeded" if other is None else f"raised {type(other).__name__}") + " on the object that was written",
+                          key={"after": op["op"], "raised": type(e).__name__})
+                ctx.probe("operation_raised_on_both_objects")
+                break
             ctx.ops_done += 1
-            if st.shadow is not None and st.shadow.objs and op["op"] not in ("write_read", "plot"):
+            if lockstep:
                 apply_op(Ctx(prop), st.shadow, op, None)
             run_oracles(ctx, st, op, info, prop)
             signature(ctx, st, op)
